@@ -17,6 +17,7 @@ from __future__ import annotations
 
 import ast
 import json
+import os
 import random
 import warnings
 import multiprocessing
@@ -33,6 +34,23 @@ CMPOPS = list(A.CMPOPS)
 QUICK_STRIDE = 101       # quick: 1/101 of the two-edge chains
 THOROUGH_STRIDE, THOROUGH_PARTS = 35, 7   # thorough: 7 residues mod 35 = 1/5 of them
 REPLAY_PROCS = 6
+APPLIED = "abcdefghp"     # repairs committed in /repo: the spec's plain Impl (ExprBuild.tla `Applied`); revertible in the model only
+FIX_FLAGS = APPLIED + "qrstuv"   # + proposed repairs the spec knows (Fix* operators), in effect once their finding is "fixed"
+CAUSE_FLAG = {"precedence": "p", "dictcomp-no-space": "a", "dict-unpack-none": "b", "empty-slice-tuple": "c", "int-attribute": "d",
+              "fstring-conversion-dropped": "e", "fstring-format-spec-dropped": "f", "in_subscript-leak": "g", "in_formatted_str-leak": "h"}
+
+
+def fixed_flags(findings: list) -> set:
+    """Repairs that belong to the baseline: `fix_flag` of every findings.d/C03.json entry whose status is "fixed"
+    (VERIF_C03_FIXED=a,g adds flags for trying a proposed fix on a scratch copy before the entry is flipped)."""
+    flags = {e["fix_flag"] for e in findings if e.get("status") == "fixed" and e.get("fix_flag")}
+    flags |= {f for f in os.environ.get("VERIF_C03_FIXED", "").replace(",", " ").split() if f}
+    if not flags <= set(FIX_FLAGS):
+        die(f"C03: unknown fix flag(s) {sorted(flags - set(FIX_FLAGS))}")
+    return flags - set(APPLIED)      # a..h, p are the code of /repo: the plain Impl of the spec
+
+
+FIXED: set = set()
 
 
 class World:
@@ -84,7 +102,7 @@ def check_case(run: Run, w: World, case: dict, variant: int, stats: dict):
     top, p0 = case["top"], case["P0"]
     binmap, cmpop = variant_maps(variant)
     tree, itree, rtree = (A.map_ops(case[k], binmap, cmpop) for k in ("tree", "itree", "rtree"))
-    impl_t = A.map_tokens(case["impl"], binmap, A.compare_ops_in_order(itree, skip_spec=True))
+    impl_t = A.map_tokens(case["impl"], binmap, A.compare_ops_in_order(itree, skip_spec=False))
     ref_t = A.map_tokens(case["ref"], binmap, A.compare_ops_in_order(itree, skip_spec=False))
     cid = case_id(case)
     ident = {"id": cid, "variant": variant, "top": top, "P0": p0, "chain": case["chain"], "tree": case["tree"]}
@@ -124,7 +142,7 @@ def check_case(run: Run, w: World, case: dict, variant: int, stats: dict):
         return
     run.replayed()
     real = A.merged([p if isinstance(p, str) else ("n", p[1]) for p in flat])
-    model = A.merged(A.concretise(impl_t, A.strings_in_order(itree, skip_spec=True)))
+    model = A.merged(A.concretise(impl_t, A.strings_in_order(itree, skip_spec=False)))
     strict = real == model
     # The model's Impl explains the real output when both are the same code as far as the property can tell: they parse to
     # the same tree (redundant parentheses, spacing and literal spelling aside) or - when neither parses - are the same
@@ -222,16 +240,20 @@ def check_contexts(run: Run, w: World, cases: list, stats: dict):
 
 
 def tlc_jobs(tier: str) -> dict:
+    FIXED_TLA = ", ".join(f'"{f}"' for f in sorted(FIXED))
     jobs = {
-        "defect": dict(cfg="ExprBuild_defect.cfg", constants=dict(DEPTH=2, FAMILY="chain", STRIDE=1, OFFSET=0, DOMAIN="defect", EMIT="FALSE"), workers=1, dump_trace=True),
-        "lambda": dict(constants=dict(DEPTH=2, FAMILY="lambda", STRIDE=1, OFFSET=0, DOMAIN="all", EMIT="TRUE"), workers=1),
-        "depth2": dict(constants=dict(DEPTH=2, FAMILY="chain", STRIDE=1, OFFSET=0, DOMAIN="all", EMIT="TRUE"), workers=5),
+        "defect": dict(cfg="ExprBuild_defect.cfg", constants=dict(DEPTH=2, FAMILY="chain", STRIDE=1, OFFSET=0, DOMAIN="defect", EMIT="FALSE", FIXED=FIXED_TLA, REVERTED=""), workers=1, dump_trace=True),
+        **{f"regress-{x}": dict(cfg="ExprBuild_regress.cfg", workers=1, dump_trace=True,
+                                constants=dict(DEPTH=2, FAMILY="chain", STRIDE=1, OFFSET=0, DOMAIN="defect", EMIT="FALSE", FIXED=FIXED_TLA, REVERTED=f'"{x}"'))
+           for x in APPLIED},
+        "lambda": dict(constants=dict(DEPTH=2, FAMILY="lambda", STRIDE=1, OFFSET=0, DOMAIN="all", EMIT="TRUE", FIXED=FIXED_TLA, REVERTED=""), workers=1),
+        "depth2": dict(constants=dict(DEPTH=2, FAMILY="chain", STRIDE=1, OFFSET=0, DOMAIN="all", EMIT="TRUE", FIXED=FIXED_TLA, REVERTED=""), workers=5),
     }
     if tier == "quick":
-        jobs["depth3"] = dict(constants=dict(DEPTH=3, FAMILY="chain", STRIDE=QUICK_STRIDE, OFFSET=SEED % QUICK_STRIDE, DOMAIN="all", EMIT="TRUE"), workers=5)
+        jobs["depth3"] = dict(constants=dict(DEPTH=3, FAMILY="chain", STRIDE=QUICK_STRIDE, OFFSET=SEED % QUICK_STRIDE, DOMAIN="all", EMIT="TRUE", FIXED=FIXED_TLA, REVERTED=""), workers=5)
     else:
         for i in range(THOROUGH_PARTS):   # THOROUGH_PARTS residues of THOROUGH_STRIDE: a seeded THOROUGH_PARTS/THOROUGH_STRIDE of all two-edge chains
-            jobs[f"depth3-{i}"] = dict(constants=dict(DEPTH=3, FAMILY="chain", STRIDE=THOROUGH_STRIDE, OFFSET=(SEED + i * 5) % THOROUGH_STRIDE, DOMAIN="all", EMIT="TRUE"), workers=6, heap="3g")
+            jobs[f"depth3-{i}"] = dict(constants=dict(DEPTH=3, FAMILY="chain", STRIDE=THOROUGH_STRIDE, OFFSET=(SEED + i * 5) % THOROUGH_STRIDE, DOMAIN="all", EMIT="TRUE", FIXED=FIXED_TLA, REVERTED=""), workers=6, heap="3g")
     return jobs
 
 
@@ -262,9 +284,10 @@ class Collector:
 _WORLD = None
 
 
-def _replay_chunk(chunk: list):
+def _replay_chunk(chunk: list, fixed: list):
     """Worker: replay [(case, [variants])...] on the real code; returns (Collector, stats)."""
     global _WORLD  # noqa: PLW0603
+    FIXED.update(fixed)
     if _WORLD is None:
         warnings.filterwarnings("ignore", category=SyntaxWarning)
         _WORLD = World(ensure_repo())
@@ -296,7 +319,13 @@ def main(tier: str, replay: str | None = None):
     griffe = ensure_repo()
     w = World(griffe)
     run = Run("C03", tier)
-    run.rule = ("ExprBuild.tla: chains of node templates (79 shapes over the 28 node types of _node_map, 13 binary / 4 unary / 2 boolean / 10 comparison operators): "
+    FIXED.update(fixed_flags(run.findings))
+    if os.environ.get("VERIF_C03_FIXED"):
+        # trying a fix before its entry is flipped: the matching entries must not excuse anything
+        run.findings = [e for e in run.findings if e.get("fix_flag") not in FIXED]
+    if FIXED:
+        run.note(f"baseline includes the proposed repairs {sorted(FIXED)}: the model's Impl is the repaired behaviour for them")
+    run.rule = ("ExprBuild.tla: chains of node templates (80 shapes over the 28 node types of _node_map, 13 binary / 4 unary / 2 boolean / 10 comparison operators): "
                 "every single shape, every (parent shape, slot, child shape) edge, two-edge chains (all in thorough, a seeded 1/37 in quick), each as value and - when strings "
                 "occur - as annotation with and without postponed evaluation; every lambda parameter list with <=2 positional-only, <=2 positional-or-keyword, <=2 keyword-only, "
                 "defaults, *args, **kwargs. Non-trivial = a chain with at least one edge or a lambda with parameters; distinct by chain / parameter list.")
@@ -312,7 +341,8 @@ def main(tier: str, replay: str | None = None):
         fam = "lambda" if not c["chain"] else "chain"
         depth = max(2, len(c["chain"]))
         res = tlc.must(tlc.run("ExprBuild", "ExprBuild_check.cfg", workers=4, timeout=1100,
-                               constants=dict(DEPTH=depth, FAMILY=fam, STRIDE=1, OFFSET=0, DOMAIN="all", EMIT="TRUE")))
+                               constants=dict(DEPTH=depth, FAMILY=fam, STRIDE=1, OFFSET=0, DOMAIN="all", EMIT="TRUE",
+                                              FIXED=", ".join(f'"{f}"' for f in sorted(FIXED)), REVERTED="")))
         run.add_tlc(res)
         hit = [x for x in res.cases if x["chain"] == c["chain"] and x["tree"] == c["tree"] and x["top"] == c["top"] and x["P0"] == c["P0"]]
         if not hit:
@@ -327,13 +357,24 @@ def main(tier: str, replay: str | None = None):
     seq = 0
     dres = None
     pending = []
+    regress: dict = {}
     with ProcessPoolExecutor(max_workers=REPLAY_PROCS, mp_context=multiprocessing.get_context("spawn")) as pool, \
-            ThreadPoolExecutor(max_workers=4 if tier == "quick" else 2) as ex:
+            ThreadPoolExecutor(max_workers=6 if tier == "quick" else 3) as ex:
         futs = {ex.submit(tlc.run, "ExprBuild", j.pop("cfg", "ExprBuild_check.cfg"), timeout=1100 if tier == "thorough" else 170, **j): name for name, j in jobs.items()}
         for fut in as_completed(futs):
             name, res = futs[fut], fut.result()
             if name == "defect":
                 dres = res
+                continue
+            if name.startswith("regress-"):
+                # model-only regression domain: with the repair reverted in the model TLC must exhibit the old defect again
+                flag = name[-1]
+                tlc.must(res, allow_violations=True)
+                run.add_tlc(res)
+                old = [b for b in (res.trace[-1]["bad"] if res.trace else []) if CAUSE_FLAG.get(b["cause"]) == flag]
+                if "OldDefectGone" not in res.violated or not old:
+                    die(f"C03: with repair {flag} reverted in the model TLC does not exhibit the old defect any more")
+                regress[flag] = {"chain": "/".join(l["s"] for l in res.trace[-1]["chain"]), "cause": old[0]["cause"]}
                 continue
             tlc.must(res)
             run.add_tlc(res)
@@ -347,12 +388,12 @@ def main(tier: str, replay: str | None = None):
                     variants.append(seq + SEED + 1 + rnd.randrange(8))      # another operator of each class
                 chunk.append((case, variants))
                 if len(chunk) == 400:
-                    pending.append(pool.submit(_replay_chunk, chunk))
+                    pending.append(pool.submit(_replay_chunk, chunk, sorted(FIXED)))
                     chunk = []
                 if 0 < depth <= 2:
                     keep.append(case)
             if chunk:
-                pending.append(pool.submit(_replay_chunk, chunk))
+                pending.append(pool.submit(_replay_chunk, chunk, sorted(FIXED)))
             res.cases = []
         for fut in pending:
             merge(run, stats, *fut.result())
@@ -371,6 +412,9 @@ def main(tier: str, replay: str | None = None):
         die(f"C03: case space shrank: {counts}")
     if not stats["clean"] or stats["clean"] == seq:
         die(f"C03: the clean domain ({stats['clean']} of {seq} cases) is empty or everything - CleanHolds / NoDefect are vacuous")
+    if set(regress) != set(APPLIED):
+        die(f"C03: regression domain incomplete: {sorted(regress)}")
+    run.extra["old_defects_exhibited_by_tlc_when_reverted"] = regress
     run.extra["cases"] = counts
     singles = [c for c in keep if len(c["chain"]) == 1 and c["top"] == "value"]
     edges = [c for c in keep if len(c["chain"]) == 2 and c["top"] == "value"]
